@@ -40,6 +40,14 @@ U = 2.0 ** -53
 
 def build(c, seed):
     pat = c['pat']
+    if pat == 'deadch':        # an exactly zero rank channel in the middle of a bond (not the last one)
+        Y = space.tt(c['shape'], c['ranks'], 'gen', seed, tag=c.get('tag', 0))
+        for k in range(len(Y) - 1):
+            if Y[k].shape[2] >= 2:
+                Y[k][:, :, 0] = 0.0
+        if c.get('scale'):
+            Y[0] = Y[0] * 2.0 ** c['scale']
+        return Y
     if pat == 'graded':
         Y = space.tt(c['shape'], c['ranks'], 'gen', seed, tag=c.get('tag', 0))
         for k, G in enumerate(Y):
@@ -196,7 +204,9 @@ def check_add_many(c):
     shape, rk = c['shape'], c['ranks']
     items = []
     for j, it in enumerate(c['items']):
-        if it == 'T':
+        if it == 'I':          # integer-typed cores (small integers stored as int64)
+            items.append([G.astype(np.int64) for G in space.tt(shape, rk, 'intA', seed, tag=100 + j)])
+        elif it == 'T':
             items.append(space.tt(shape, rk, 'gen', seed, tag=100 + j))
         else:
             items.append(it)
@@ -275,6 +285,14 @@ def _tensors(tier, seed):
         for sc in (-20, 20):
             for sh, rk in (([3, 3], [1, 3, 1]), ([2, 3, 2], [1, 2, 2, 1]), ([3, 2, 3], [1, 3, 3, 1])):
                 out.append(dict(shape=sh, ranks=rk, pat='gen', scale=sc, seed=seed))
+    # an exactly zero rank channel; a size-1 mode joined by rank-1 bonds on both sides (a scalar core) in the interior
+    for sh, rk in (([3, 3], [1, 3, 1]), ([3, 2, 3], [1, 3, 3, 1]), ([2, 3, 2, 2], [1, 2, 3, 2, 1])):
+        out.append(dict(shape=sh, ranks=rk, pat='deadch', scale=0, seed=seed))
+    for sh, rk in (([3, 3, 1, 3], [1, 3, 1, 1, 1]), ([3, 3, 1, 2], [1, 2, 1, 1, 1]), ([2, 3, 3, 1, 2], [1, 2, 3, 1, 1, 1]), ([3, 1, 3, 1, 2], [1, 1, 1, 1, 1, 1]),
+                   ([4, 4, 1], [1, 4, 1, 1]), ([1, 4, 4], [1, 1, 4, 1])):
+        for pat in ('gen', 'graded'):
+            for sc in (0, -12, 12):
+                out.append(dict(shape=sh, ranks=rk, pat=pat, scale=sc, seed=seed))
     # extreme scales (absolute tolerances hidden in the code show only here) incl. exactly square unfoldings r_k = n_k r_{k+1}
     for sc in (-40, -70, 60, -300, 300):
         for sh, rk in (([3, 3], [1, 3, 1]), ([2, 2, 2], [1, 2, 2, 1]), ([5, 6, 4], [1, 4, 4, 1]), ([3, 2, 3], [1, 3, 3, 1]), ([2, 3, 2, 2], [1, 2, 4, 2, 1])):
@@ -294,6 +312,9 @@ def _add_many(tier, seed):
                 for sh, rk in (([3, 3], [1, 2, 1]), ([2, 3, 2], [1, 2, 2, 1])):
                     out.append(dict(shape=sh, ranks=rk, items=list(items), freq=freq,
                                     es=[1e-10, 1e-2, 0.2], caps=[1, 2, 1e12], seed=seed))
+    for items in (['I', 'T'], ['I', 'T', 'T'], ['T', 'I'], ['I', 0.5, 'T'], ['I', 'I', 'T', 2]):
+        for sh, rk in (([3, 3], [1, 2, 1]), ([2, 3, 2], [1, 2, 2, 1]), ([2, 2, 3, 2], [1, 2, 2, 2, 1])):
+            out.append(dict(shape=sh, ranks=rk, items=items, freq=2, es=[1e-10, 1e-2], caps=[2, 1e12], seed=seed))
     # long lists: the periodic intermediate rounding (every trunc_freq summands, default 15) really happens
     for L in (15, 16, 17, 31, 32):
         for freq in (15, 4):
